@@ -225,6 +225,36 @@ then random shapes up to 40x40 (thorough 64x64) with pseudo-random distinct entr
         }
     }
     ctx.exhaustive.push("all shape pairs with rows, cols in 1..=6 x 4 operators x 3 operand kinds x 4 ownership forms".into());
+    // large operands (above any plausible batching / parallelisation threshold, non-square, lengths that are
+    // not multiples of 8): every broadcast pattern once per operator and operand kind
+    let big: [(usize, usize); 6] = [(200, 100), (16, 1024), (128, 129), (129, 128), (1031, 17), (300, 300)];
+    for (r, c) in big {
+        // (left shape, right shape) patterns for a full r x c matrix
+        let pats: [((usize, usize), (usize, usize)); 9] = [
+            ((r, c), (r, c)),
+            ((r, c), (1, c)),
+            ((1, c), (r, c)),
+            ((r, c), (r, 1)),
+            ((r, 1), (r, c)),
+            ((r, 1), (1, c)),
+            ((1, c), (r, 1)),
+            ((r, c), (1, 1)),
+            ((1, 1), (r, c)),
+        ];
+        for (k, ((lr, lc), (rr, rc))) in pats.iter().enumerate() {
+            for op in 0u8..4 {
+                for kind in 0u8..3 {
+                    if (kind == 1 && *rr != 1) || (kind == 2 && *lr != 1) {
+                        continue;
+                    }
+                    let own = ((k as u8) + op + kind) % 4;
+                    let c = Case { kind, own, op, lr: *lr, lc: *lc, rr: *rr, rc: *rc, salt: 0x9e3779b97f4a7c15 ^ ((r * 4099 + c) as u64) };
+                    ctx.check_one("broadcast", &c, check);
+                }
+            }
+        }
+    }
+    ctx.exhaustive.push("6 large shapes (16k..90k elements, non-square, odd lengths) x 9 broadcast patterns x 4 operators x applicable operand kinds".into());
     let n = ctx.scale(20_000, 400_000);
     let maxdim = ctx.scale(40, 64) as usize;
     ctx.run_prop_par("broadcast", n, 8, || strat(maxdim), check);
